@@ -113,6 +113,12 @@ def main(argv=None) -> int:
         level = None
     except Exception:
         traceback.print_exc()
+        try:  # keep the reason where a later look can find it (callers often filter stderr)
+            os.makedirs(os.path.join(OUT, "replays"), exist_ok=True)
+            with open(os.path.join(OUT, "replays", f"{pid}.machinery.txt"), "w") as f:
+                f.write(f"tier={args.tier} seed={seed}\n" + traceback.format_exc())
+        except OSError:
+            pass
         print("MACHINERY: driver raised", file=sys.stderr)
         rc = 2
         level = None
